@@ -425,6 +425,61 @@ func runC13(c *Ctx) {
 	c.rule("C13-R3", "owners of in-flight operations stay reachable: Register on the success edge of every registration; Deregister only when no interest is left", 11)
 	e := newE2(p)
 	register := p.Method("sonic", "IO", "Register")
+	// Register really keeps the slot: on every path the slot it was given is stored into the table (an element of the
+	// static array or an entry of the map) - the pointer the kernel holds is invisible to the collector
+	{
+		paths, overflow := enumPaths(register)
+		okKeep := !overflow && len(paths) > 0
+		slotPrm := ssa.Value(register.Params[len(register.Params)-1])
+		for _, path := range paths {
+			if path.Panics {
+				continue
+			}
+			kept := false
+			for _, in := range path.Instrs() {
+				hit := func(x ssa.Instruction) bool {
+					switch v := x.(type) {
+					case *ssa.Store:
+						_, isIdx := v.Addr.(*ssa.IndexAddr)
+						return isIdx && stripConv(v.Val) == slotPrm
+					case *ssa.MapUpdate:
+						return stripConv(v.Value) == slotPrm
+					}
+					return false
+				}
+				if hit(in) {
+					kept = true
+				}
+				if call, ok := in.(*ssa.Call); ok {
+					if h := call.Call.StaticCallee(); h != nil && isHelperOf(register, h) {
+						for k, a := range call.Call.Args {
+							if stripConv(a) != slotPrm || k >= len(h.Params) {
+								continue
+							}
+							hp := ssa.Value(h.Params[k])
+							okp, _ := mustPassAt(h.Blocks[0], 0, func(x ssa.Instruction) bool {
+								switch v := x.(type) {
+								case *ssa.Store:
+									_, isIdx := v.Addr.(*ssa.IndexAddr)
+									return isIdx && stripConv(v.Val) == hp
+								case *ssa.MapUpdate:
+									return stripConv(v.Value) == hp
+								}
+								return false
+							})
+							if okp {
+								kept = true
+							}
+						}
+					}
+				}
+			}
+			if !kept {
+				okKeep = false
+			}
+		}
+		c.check(okKeep, register, "keeps the slot", register.Pos(), "the slot is stored into the table on every path", "IO.Register returns on some path without storing the slot in its table: an object whose every other reference is dropped while its operation is in flight is collected, and the completion runs on freed memory (or never)")
+	}
 	for _, fn := range p.Funcs {
 		pk, tn := recvTypeName(fn)
 		if !c14Owners[pk+"."+tn] {
